@@ -148,6 +148,65 @@ func checkC05(c *Ctx) {
 	if nSucc == 0 {
 		R.Fail("C05-oneframe", "(*ResponseWriter).Write: success return", c.P.Pos(write.Pos()), "no `return nil` found")
 	}
+	// a successful Write means the frame was written AND flushed without error: the success return must be
+	// control-dependent on err == nil of both calls
+	errOK := func(ret *ssa.Return, call ssa.CallInstruction) bool {
+		v, ok := call.(ssa.Value)
+		if !ok {
+			return false
+		}
+		isErrOf := func(x ssa.Value) bool {
+			x = an.Strip(x)
+			if x == v {
+				return true
+			}
+			ex, ok := x.(*ssa.Extract)
+			return ok && ex.Tuple == v && isErrorType(ex.Type())
+		}
+		for _, fct := range an.BranchFacts(ret.Block()) {
+			cond, neg := an.Not(fct.Cond)
+			if x, trueMeansNil, ok := an.NilCheck(cond); ok && isErrOf(x) {
+				if (fct.True != neg) == trueMeansNil {
+					return true
+				}
+			}
+		}
+		return false
+	}
+	for _, ret := range an.Returns(write) {
+		res := an.ReturnResults(ret)
+		if ei < 0 || ei >= len(res) || !an.IsNilConst(an.Strip(res[ei])) {
+			continue
+		}
+		okAll := len(wcalls) > 0 && len(fcalls) > 0
+		for _, w := range wcalls {
+			if !errOK(ret, w) {
+				okAll = false
+			}
+		}
+		for _, f := range fcalls {
+			if !errOK(ret, f) {
+				okAll = false
+			}
+		}
+		R.Check(okAll, "C05-oneframe", "(*ResponseWriter).Write: success only when Write and Flush succeeded", c.pos(ret), "`return nil` is control-dependent on err == nil of writer.Write and writer.Flush", "Write can report success although writing or flushing the frame failed (or reports failure on success): the client would see a torn/missing frame for a 'successful' Write")
+	}
+	// the lock taken for the frame is released on every path (a lock that is never released loses every later frame)
+	for _, ci := range an.Calls(write) {
+		if k, mu := an.LockOp(ci.Common()); k == "Lock" && isCall(ci) {
+			mp := an.MutexPath(mu)
+			unlock := func(in ssa.Instruction) bool {
+				c2, ok := in.(ssa.CallInstruction)
+				if !ok {
+					return false
+				}
+				k2, m2 := an.LockOp(c2.Common())
+				return k2 == "Unlock" && an.MutexPath(m2) == mp && !isGo(c2)
+			}
+			w := an.Search(an.After(ci), an.IsReturn, unlock)
+			R.Check(w == nil, "C05-locked", "(*ResponseWriter).Write: lock released on every path", c.pos(ci), "every path from Lock to a return passes Unlock (or its defer)", "the write lock is not released on some path: every later response on the connection blocks for ever")
+		}
+	}
 	for _, f := range fcalls {
 		// Flush must come after a Write on every path: no path entry -> Flush avoiding Write
 		if w := an.Search(an.Entry(write), func(in ssa.Instruction) bool { return in == ssa.Instruction(f) }, isW); w != nil {
